@@ -321,9 +321,16 @@ class SymReal:
         raise Unsupported("float() of a symbolic value")
 
     def __int__(self):
-        raise Unsupported("int() of a symbolic value")
+        return ENGINE.concretise_int(self, "trunc")
 
-    __index__ = __int__
+    def __index__(self):
+        raise Unsupported("symbolic value used as an index")
+
+    def __floor__(self):
+        return ENGINE.concretise_int(self, "floor")
+
+    def __ceil__(self):
+        return ENGINE.concretise_int(self, "ceil")
 
     def __bool__(self):
         return ENGINE.branch(self.e != 0)
@@ -412,6 +419,7 @@ class Engine:
         self.scratch = {}        # per-path storage for stubs (not serialised)
         self._assumed = set()    # ids of simplified conditions already in pc
         self._decided = {}       # id of simplified branch condition -> decision on this path
+        self._roots = {}         # (id of simplified radicand, p, q) -> SymReal
 
     # -- parameters -------------------------------------------------------
     def param(self, name, lo=None, hi=None):
@@ -488,7 +496,7 @@ class Engine:
         return None
 
     # -- branching --------------------------------------------------------
-    def branch(self, cond):
+    def branch(self, cond, tag=None):
         cond = z3.simplify(cond)
         if z3.is_true(cond):
             return True
@@ -500,8 +508,11 @@ class Engine:
         i = len(self.trace)
         if i >= self.max_decisions:
             raise PathAbort("bound-exceeded", "more than %d decisions" % self.max_decisions)
+        wrap = (lambda b: b) if tag is None else (lambda b: (tag, b))
         if i < len(self.prefix):
             d = self.prefix[i]
+            if isinstance(d, tuple):
+                d = d[1]
         else:
             if self.budget_s is not None and time.time() - self.t0 > self.budget_s:
                 raise PathAbort("budget", "time budget exhausted")
@@ -513,7 +524,7 @@ class Engine:
                 if r != "unsat":
                     if r == "unknown":
                         self.inconclusive = True
-                    self.pending.append((self.trace + [not d], m, r == "unknown"))
+                    self.pending.append((self.trace + [wrap(not d)], m, r == "unknown"))
             else:
                 rt, mt = self.check([cond])
                 rf, mf = self.check([z3.Not(cond)])
@@ -522,7 +533,7 @@ class Engine:
                     self.inconclusive = True
                 if ft and ff:
                     d = True
-                    self.pending.append((self.trace + [False], mf, rf == "unknown"))
+                    self.pending.append((self.trace + [wrap(False)], mf, rf == "unknown"))
                     self.model = mt
                 elif ft:
                     d = True
@@ -532,10 +543,37 @@ class Engine:
                     self.model = mf
                 else:
                     raise PathAbort("infeasible", "both sides unsat")
-        self.trace.append(d)
+        self.trace.append(wrap(d))
         self.pc.append(cond if d else z3.Not(cond))
         self._decided[cid] = d
         return d
+
+    def concretise_int(self, x, mode):
+        """int(x) / floor(x) / ceil(x) of a symbolic real: enumerates the feasible integer
+        values lazily (one branch per value, guided by the path witness)."""
+        import math as _m
+        e = x.e
+        for _ in range(64):
+            i = len(self.trace)
+            if i < len(self.prefix) and isinstance(self.prefix[i], tuple):
+                v = Fraction(self.prefix[i][0])      # replay: the candidate recorded on the parent path
+            else:
+                m = self.witness()
+                if m is None:
+                    raise PathAbort("unknown", "no witness to concretise an integer")
+                v = _frac(m.eval(e, model_completion=True))
+            if mode == "floor":
+                n = _m.floor(v)
+                c = z3.And(e >= n, e < n + 1)
+            elif mode == "ceil":
+                n = _m.ceil(v)
+                c = z3.And(e > n - 1, e <= n)
+            else:
+                n = int(v)
+                c = z3.And(e > n - 1, e < n + 1) if n == 0 else (z3.And(e >= n, e < n + 1) if n > 0 else z3.And(e > n - 1, e <= n))
+            if self.branch(c, tag=str(v)):
+                return n
+        raise PathAbort("bound-exceeded", "more than 64 integer values for one symbolic quantity")
 
     def fork_int(self, lo, hi, label="int"):
         """Nondeterministic concrete int in [lo, hi] (forks)."""
@@ -583,6 +621,10 @@ class Engine:
                     r, m = self.check([z], kind="definedness")
                 if r == "sat":
                     self._finding("zero-divisor", "divisor can be zero: %s" % _short(eb), m)
+                    if not known:
+                        r2, m2 = self.check([z3.Not(z)], kind="definedness")
+                        if r2 == "unsat":
+                            raise PathAbort("definedness", "divisor always zero here")
                 elif r == "unknown":
                     self.notes["definedness_unknown"] = self.notes.get("definedness_unknown", 0) + 1
                 if known:
@@ -620,13 +662,35 @@ class Engine:
                     r, m = self.check([neg], kind="definedness")
                 if r == "sat":
                     self._finding("negative-radicand", "radicand can be negative: %s" % _short(ex), m)
+                    if not known:
+                        r2, m2 = self.check([z3.Not(neg)], kind="definedness")
+                        if r2 == "unsat":
+                            raise PathAbort("definedness", "radicand always negative here")
                 if known:
                     r2, m2 = self.check([z3.Not(neg)], kind="definedness")
                     if r2 == "unsat":
                         raise PathAbort("definedness", "radicand always negative here")
                     self.model = m2
                 self.pc.append(z3.Not(neg))
+        sx = z3.simplify(ex)
+        key = (sx.get_id(), p, q)
+        if key in self._roots:
+            return self._roots[key]
+        if z3.is_rational_value(sx) and p == 1 and q == 2:
+            fr = Fraction(sx.numerator_as_long(), sx.denominator_as_long())
+            if fr >= 0:
+                import math as _m
+                rn, rd = _m.isqrt(fr.numerator), _m.isqrt(fr.denominator)
+                if rn * rn == fr.numerator and rd * rd == fr.denominator:
+                    res = SymReal(z3.RealVal(str(Fraction(rn, rd))))
+                    self._roots[key] = res
+                    return res
+                # constant radicand: evaluate like every other concrete sub-computation, in float64
+                res = float(fr) ** 0.5
+                self._roots[key] = res
+                return res
         y = self.new_real("root")
+        self._roots[key] = SymReal(y)
         self.side.append(y >= 0)
         lhs = y
         for _ in range(q - 1):
@@ -782,7 +846,8 @@ class Engine:
                 rec["exc_type"] = type(e).__name__
                 self._finding("exception", rec["msg"], self.model)
             rec["decisions"] = len(self.trace)
-            rec["trace"] = "".join("1" if d else "0" for d in self.trace)
+            rec["trace"] = "".join(("1" if d else "0") if not isinstance(d, tuple) else ("I" if d[1] else "i")
+                                   for d in self.trace)
             rec["inconclusive"] = self.inconclusive
             rec["findings"] = self.findings
             rec["obligs"] = self.obligs
